@@ -41,9 +41,14 @@ struct World {
     tasks: Vec<Task>,
     /// spawned tasks whose future panicked (the panic is owed to whoever awaits the JoinHandle)
     task_panics: usize,
+    /// number of JoinHandle polls so far (the macro's future watching its tasks)
+    handle_polls: usize,
+    /// tasks that completed while their (still alive) JoinHandle had no waker registered although the macro's future had polled
+    /// some JoinHandle after the task was spawned: it is joining, but not watching this task
+    unwatched: usize,
 }
 thread_local! {
-    static WORLD: RefCell<World> = RefCell::new(World { active: false, released: BTreeSet::new(), arrived: BTreeMap::new(), polled: BTreeSet::new(), tasks: Vec::new(), task_panics: 0 });
+    static WORLD: RefCell<World> = RefCell::new(World { active: false, released: BTreeSet::new(), arrived: BTreeMap::new(), polled: BTreeSet::new(), tasks: Vec::new(), task_panics: 0, handle_polls: 0, unwatched: 0 });
 }
 pub fn active() -> bool {
     WORLD.with(|w| w.borrow().active)
@@ -104,6 +109,7 @@ pub mod shim {
     impl<T> Future for JoinHandle<T> {
         type Output = Result<T, JoinError>;
         fn poll(self: Pin<&mut Self>, cx: &mut Context<'_>) -> Poll<Self::Output> {
+            WORLD.with(|w| w.borrow_mut().handle_polls += 1);
             let mut s = self.slot.lock().unwrap();
             if let Some(r) = s.0.take() {
                 Poll::Ready(r)
@@ -140,6 +146,7 @@ pub mod shim {
         let s2 = slot.clone();
         let s3 = slot.clone();
         let mut inner = Box::pin(f);
+        let spawn_epoch = WORLD.with(|w| w.borrow().handle_polls);
         // the task: poll the user future under catch_unwind; a panic becomes Err(JoinError) for the handle
         let fut = Box::pin(std::future::poll_fn(move |cx| {
             let r = catch_unwind(AssertUnwindSafe(|| inner.as_mut().poll(cx)));
@@ -155,6 +162,9 @@ pub mod shim {
             s.0 = Some(out);
             if let Some(w) = s.1.take() {
                 w.wake();
+            } else if Arc::strong_count(&s2) > 1 && WORLD.with(|w| w.borrow().handle_polls) > spawn_epoch {
+                // (strong count: this closure holds one clone; a second one is the live JoinHandle)
+                WORLD.with(|w| w.borrow_mut().unwatched += 1);
             }
             Poll::Ready(())
         }));
@@ -189,6 +199,8 @@ pub struct Exec {
     pub divergence: bool,
     pub states: Vec<u64>,
     pub polls_after_done: bool,
+    /// a task completed while the macro's future was pending in a join that did not watch it (see World::unwatched)
+    pub unwatched_completion: bool,
 }
 
 fn hash_state(w: &World, root_waker: &Waker, last_release: Option<usize>, root_flag: bool, root_done: bool, log: &[String], spur: usize) -> u64 {
@@ -238,6 +250,8 @@ pub fn run_one(
         w.polled.clear();
         w.tasks.clear();
         w.task_panics = 0;
+        w.handle_polls = 0;
+        w.unwatched = 0;
     });
     let mut ex = Exec {
         value: None,
@@ -251,6 +265,7 @@ pub fn run_one(
         divergence: false,
         states: vec![],
         polls_after_done: false,
+        unwatched_completion: false,
     };
     let root_flag = flag(true);
     let root_waker: Waker = root_flag.clone().into();
@@ -381,6 +396,9 @@ pub fn run_one(
                     match r {
                         Poll::Ready(()) => t.done = true,
                         Poll::Pending => t.fut = Some(fut),
+                    }
+                    if w.unwatched > 0 && !root_done {
+                        ex.unwatched_completion = true;
                     }
                 });
             }
@@ -690,6 +708,8 @@ pub mod harness {
                                 msg = Some("hang: every pending point is released and nothing is runnable, but the macro's future has not completed (lost wake-up / order-dependent hang)".into());
                             } else if let Some(iv) = &ex.invariant_violation {
                                 msg = Some(iv.clone());
+                            } else if ex.unwatched_completion && !faulty {
+                                msg = Some("a spawned branch completed while the macro's future was pending in its join and had no waker registered for that branch: the wake-up of a branch does not reach the macro's future (handles awaited one after another)".into());
                             } else if !vrt::steps_monotone(&ex.log) {
                                 msg = Some("an event of an earlier step was observed after an event of a later step (step barrier broken)".into());
                             } else if let Some(k) = panic_step {
